@@ -146,7 +146,11 @@ fn main() {
                     if let Err(e) = b.seal() {
                         return format!("INGEST err seal:{}", err_class(&e));
                     }
+                    // markers for the fault-injection stage of C08: the calls of LsmTree::ingest are those
+                    // between the two stats of these (non-existent) names in an strace recording
+                    let _ = std::fs::metadata("/blue-verif-mark-ingest-begin");
                     let r = tree.ingest(&path);
+                    let _ = std::fs::metadata("/blue-verif-mark-ingest-end");
                     let _ = std::fs::remove_file(&path);
                     match r {
                         Ok(()) => "INGEST ok".into(),
@@ -190,6 +194,46 @@ fn main() {
                     }
                 }
                 "dump" => "DUMPREQ".into(),
+                "plant" => {
+                    // plant <name under mani/> : a file an earlier process could have left behind
+                    match std::fs::write(format!("{root}/mani/{}", t[1]), b"garbage left by a rollover that died\n") {
+                        Ok(()) => "PLANT ok".into(),
+                        Err(e) => format!("PLANT err {e}"),
+                    }
+                }
+                "ls" => {
+                    let mut s = "LS".to_string();
+                    for d in ["sst", "mani", "trash"] {
+                        let mut names: Vec<String> = match std::fs::read_dir(format!("{root}/{d}")) {
+                            Ok(rd) => rd.filter_map(|e| e.ok()).map(|e| e.file_name().to_string_lossy().to_string()).collect(),
+                            Err(_) => vec![],
+                        };
+                        names.sort();
+                        s.push_str(&format!(" {d}={}", names.join(",")));
+                    }
+                    s
+                }
+                "mani" => {
+                    // what a reader of mani/MANIFEST reconstructs (the fold of its edits), as Manifest::open does
+                    let p = format!("{root}/mani/MANIFEST");
+                    let mut strs: std::collections::BTreeSet<String> = Default::default();
+                    match mani::ManifestIterator::open(&p) {
+                        Err(_) => "MANI OPENERR".to_string(),
+                        Ok(it) => {
+                            let mut bad = false;
+                            for edit in it {
+                                let Ok(edit) = edit else { bad = true; break };
+                                for r in edit.rmed() {
+                                    strs.remove(r);
+                                }
+                                for a in edit.added() {
+                                    strs.insert(a.clone());
+                                }
+                            }
+                            format!("MANI{} strs={}", if bad { " ERR" } else { "" }, strs.into_iter().collect::<Vec<_>>().join(","))
+                        }
+                    }
+                }
                 _ => format!("BADOP {}", t[0]),
             }
         }));
